@@ -10,6 +10,7 @@ import (
 	"go.minekube.com/common/minecraft/component/codec"
 	"go.minekube.com/common/minecraft/component/codec/legacy"
 	"go.minekube.com/common/minecraft/key"
+	"go.minekube.com/gate/pkg/command"
 	"go.minekube.com/gate/pkg/edition/java/proto/packet/plugin"
 	"go.minekube.com/gate/pkg/edition/java/proto/util"
 	"go.minekube.com/gate/pkg/edition/java/proto/version"
@@ -353,8 +354,17 @@ func (r *bungeeCordMessageResponder) processMessage0(in io.Reader, decoder codec
 	}
 	if target == "ALL" {
 		r.BroadcastMessage(comp)
-	} else {
-		r.Server(target).BroadcastMessage(comp)
+		return
+	}
+	// The target of Message/MessageRaw is a player name (or ALL), not a server.
+	player := r.PlayerByName(target)
+	if player == nil {
+		return
+	}
+	if sink, ok := player.(interface {
+		SendMessage(component.Component, ...command.MessageOption) error
+	}); ok {
+		_ = sink.SendMessage(comp)
 	}
 }
 func (r *bungeeCordMessageResponder) processMessage(in io.Reader) {
